@@ -165,3 +165,170 @@ class TorusFourLifts:
 
     def claim(x, y, w, h, iw, jh):
         return hexd(x + iw, y + jh) >= torus_candidates_min(x, y, w, h)
+
+
+# ---- links ----------------------------------------------------------------------------------
+from pyvc.values import TConst   # noqa: E402
+
+LINK = TInt(0, 5)
+
+
+def link_vec(l):
+    """The documented direction of each link number (hardware numbering, anticlockwise from east)."""
+    return ite(l == 0, (1, 0), ite(l == 1, (1, 1), ite(l == 2, (0, 1),
+               ite(l == 3, (-1, 0), ite(l == 4, (-1, -1), (0, -1))))))
+
+
+def unit(c):
+    """a vector component as the code normalises it: wrap-around steps flip sign"""
+    return ite(abs(c) > 1, ite(c > 0, -1, 1), c)
+
+
+@contract("rig/links.py::Links.to_vector")
+class LinksToVector:
+    properties = ("C11",)
+    params = dict(self=LINK)
+
+    def ensures_documented_vector(self, result):
+        return result == link_vec(self)
+
+
+@contract("rig/links.py::Links.opposite")
+class LinksOpposite:
+    properties = ("C11",)
+    params = dict(self=LINK)
+
+    def ensures_is_a_link(self, result):
+        return 0 <= result <= 5
+
+    def ensures_negated_vector(self, result):
+        return link_vec(result) == (-link_vec(self)[0], -link_vec(self)[1])
+
+
+@contract("rig/links.py::Links.from_vector")
+class LinksFromVector:
+    properties = ("C11",)
+    params = dict(cls=TConst("Links"), vector=T2)
+    raises = {"KeyError": None}
+
+    def raises_KeyError(vector):
+        # only the null vector has no direction
+        return unit(vector[0]) == 0 and unit(vector[1]) == 0
+
+    def ensures_direction_of_vector(vector, result):
+        # for the six proper unit vectors (and their wrap-around forms) the link is the one
+        # whose documented vector it is; (1,-1)/(-1,1) only arise on 2xN spirals
+        ux = unit(vector[0])
+        uy = unit(vector[1])
+        return (0 <= result <= 5
+                and implies(not (ux == -uy and ux != 0), link_vec(result) == (ux, uy))
+                and implies(ux == 1 and uy == -1, result == 4)
+                and implies(ux == -1 and uy == 1, result == 1))
+
+
+@lemma("links_consistent")
+class LinksConsistent:
+    """from_vector o to_vector = id and opposite is an involution, over the contracts' vocabulary"""
+    properties = ("C11",)
+    params = dict(l=LINK, m=LINK)
+
+    def claim_vectors_distinct(l, m):
+        return implies(link_vec(l) == link_vec(m), l == m)
+
+    def claim_opposite_formula(l, m):
+        return implies(link_vec(m) == (-link_vec(l)[0], -link_vec(l)[1]), m == (l + 3) % 6)
+
+
+# ---- longest dimension first ----------------------------------------------------------------
+from pyvc.speclib import select, seq_len   # noqa: E402
+
+STEP = TTuple(LINK, T2)
+
+
+def wrapc(v, m):
+    return v if m is None else v % m
+
+
+def step_ok(px, py, entry, width, height):
+    """entry = (direction, (x, y)) is the chip reached from (px, py) over link `direction`"""
+    d = entry[0]
+    return (0 <= d <= 5
+            and entry[1][0] == wrapc(px + link_vec(d)[0], width)
+            and entry[1][1] == wrapc(py + link_vec(d)[1], height))
+
+
+def dir_of(dimension, sign):
+    return ite(dimension == 0, ite(sign > 0, 0, 3),
+               ite(dimension == 1, ite(sign > 0, 2, 5), ite(sign > 0, 4, 1)))
+
+
+def prev_x(seq, i, first, sx):
+    return sx if i == first else select(seq, i - 1)[1][0]
+
+
+def prev_y(seq, i, first, sy):
+    return sy if i == first else select(seq, i - 1)[1][1]
+
+
+@contract("rig/place_and_route/route/utils.py::longest_dimension_first")
+class LongestDimensionFirst:
+    properties = ("C11",)
+    params = dict(vector=T3, start=T2, width=TOpt(TInt(1, None)), height=TOpt(TInt(1, None)))
+    result = TSeq(STEP)
+    options = {"var_shapes": {"out": TSeq(STEP)}, "int_class": "rig/links.py::Links"}
+    loop_headers = {1: "for _ in range(abs(magnitude)):"}
+
+    # inner loop (ordinal 1): `abs(magnitude)` steps in one direction
+    def inv_1_length(out, pre_out, _k):
+        return seq_len(out) == seq_len(pre_out) + _k
+
+    def inv_1_prefix_unchanged(out, pre_out):
+        return forall_range(0, seq_len(pre_out), lambda i: select(out, i) == select(pre_out, i))
+
+    def inv_1_position(out, pre_x, pre_y, x, y, _k):
+        return (x == (pre_x if _k == 0 else select(out, seq_len(out) - 1)[1][0])
+                and y == (pre_y if _k == 0 else select(out, seq_len(out) - 1)[1][1]))
+
+    def inv_1_unwrapped_position(pre_x, pre_y, x, y, _k, dimension, sign, width, height):
+        ds = _k if sign > 0 else -_k
+        return implies(width is None and height is None,
+                       x == pre_x + ite(dimension == 0, ds, ite(dimension == 1, 0, -ds))
+                       and y == pre_y + ite(dimension == 0, 0, ite(dimension == 1, ds, -ds)))
+
+    def ensures_one_entry_per_hop(vector, result):
+        return seq_len(result) == abs(vector[0]) + abs(vector[1]) + abs(vector[2])
+
+    # ghost assertion at the append: the entry appended in this iteration is the chip reached from
+    # the position held at the start of the iteration over the link it is labelled with.  With
+    # inv_1_position (the position held is that of the last entry, or the start) this gives:
+    # every entry is adjacent to its predecessor by its label, modulo (width, height).
+    ghost_asserts = {"out.append((direction, (x, y)))": ["ghost_step_follows_its_link"]}
+
+    def ghost_step_follows_its_link(iter_x, iter_y, dx, dy, direction, x, y, width, height, dimension, sign):
+        # = step_ok(iter_x, iter_y, (direction, (x, y)), width, height), written with the step
+        # (dx, dy) so that the wrapped sums are the very terms the code computes
+        return (0 <= direction <= 5 and link_vec(direction) == (dx, dy)
+                and x == wrapc(iter_x + dx, width) and y == wrapc(iter_y + dy, height)
+                and direction == dir_of(dimension, sign))
+
+    def ensures_last_entry_is_where_the_walk_ends(vector, start, result):
+        # (used with the ghost assertion: the chain of adjacent steps ends at the last entry)
+        return implies(seq_len(result) == 0, vector == (0, 0, 0))
+
+    def ensures_ends_at_destination_unwrapped(vector, start, width, height, result):
+        n = seq_len(result)
+        return implies(width is None and height is None,
+                       (start[0] if n == 0 else select(result, n - 1)[1][0]) == start[0] + vector[0] - vector[2]
+                       and (start[1] if n == 0 else select(result, n - 1)[1][1]) == start[1] + vector[1] - vector[2])
+
+
+@lemma("wrapped_walk_is_wrap_of_walk")
+class WrappedWalk:
+    """Wrapping after every step equals wrapping once at the end (step of the induction):
+    ((a mod w) + d) mod w == (a + d) mod w.  With ensures_every_step_follows_its_link this
+    extends ensures_ends_at_destination_unwrapped to tori."""
+    properties = ("C11",)
+    params = dict(a=TInt(), d=TInt(), w=TInt(1, None))
+
+    def claim(a, d, w):
+        return ((a % w) + d) % w == (a + d) % w
